@@ -202,7 +202,49 @@ def r3_determinism(ctx, chk, rule="C10.3"):
     chk.extra["sets_enumerated"] = n_sets
 
 
+def r4_mode_is_live(ctx, chk, rule="C10.4"):
+    """'In either pruning mode, through the same object': the mode is the documented public field prune_states. Any other field
+    that the constructor derives from the prune flag is a copy frozen at construction; a decision taken on it ignores a
+    later change of the mode."""
+    from ..symx import SymX, mentions, show
+    init, solve = shared.solver_entry(ctx)
+    sx = SymX(ctx, init, init.cls.name, inline_depth=1).run()
+    flag_params = [p for p in init.params if "prune" in p]
+    if not flag_params:
+        chk.undecided(rule, init.where(), "the constructor has no prune flag parameter")
+        return
+    fp = ("v", flag_params[0])
+    derived = []
+    plain = []
+    for e in sx.final.effects:
+        if e[1] == "store" and e[2] == ("v", "self"):
+            if e[4] == fp and e[0] == ("c", True):
+                plain.append(e[3])
+            elif mentions(e[4], lambda x: x == fp) or mentions(e[0], lambda x: x == fp):
+                derived.append((e[3], e[4]))
+    if len(plain) != 1:
+        chk.undecided(rule, init.where(), "the prune flag is stored %d times unmodified by the constructor" % len(plain))
+        return
+    bad = 0
+    for field, val in derived:
+        for f in ctx.prog.all_funcs(shared.SOLVER_MODULES):
+            if f.cls is None or f.cls.name != init.cls.name or f is init:
+                continue
+            for n in walk_no_nested_defs(f.node):
+                if isinstance(n, ast.Attribute) and n.attr == field and isinstance(n.ctx, ast.Load) and attr_path(n) == "self." + field:
+                    st = ctx.cfg(f).stmt_of(n)
+                    if isinstance(st, ast.Expr) and isinstance(st.value, ast.Call) and call_name(st.value).startswith(("logging.", "print")):
+                        continue
+                    bad += 1
+                    chk.violation(rule, f.where(n), "`%s` decides on self.%s, which the constructor computed from the prune flag (`%s`): after `game.prune_states = ...` on the same object "
+                                  "this copy is stale and solve() runs partly in the other mode" % (norm_stmt(st), field, show(val)[:80]),
+                                  expected="decisions read self.%s" % plain[0], found="self.%s" % field, construct="%s reads frozen mode %s" % (f.short, field))
+    if not bad:
+        chk.ok(rule, init.where(), "the pruning mode lives in one field (self.%s); %d field(s) derived from it at construction, none read by a decision" % (plain[0], len(derived)))
+
+
 def run(ctx, chk):
+    r4_mode_is_live(ctx, chk)
     dynamic_census(ctx, chk, "C10.0")
     r1(ctx, chk)
     r2_no_carried_state(ctx, chk)
